@@ -1017,7 +1017,69 @@ def get_pool() -> Pool:
     return _POOL
 
 
+def per_call_recipe_probe(ctx):
+    """get_converter / convert with a per-call `recipe=` work on a throw-away clone: a later recipe-less request on the
+    same retort (and on the module-level functions) must behave like a fresh retort, in either order"""
+    from dataclasses import dataclass
+
+    from adaptix import conversion as conv_mod
+    from adaptix.conversion import ConversionRetort, coercer
+
+    @dataclass
+    class PSrc:
+        a: int
+        b: int
+
+    @dataclass
+    class PDst:
+        a: int
+        b: int
+
+    recipe = [coercer(int, int, lambda x: x * 100)]
+    src = PSrc(1, 2)
+    fresh = ConversionRetort().get_converter(PSrc, PDst)(src)
+    for order in ("custom-first", "plain-first"):
+        for api in ("retort.get_converter", "retort.convert", "module"):
+            case = {"probe": "per-call-recipe", "order": order, "api": api}
+            ctx.note_case(case, nontrivial=True, kind="probe:per-call-recipe")
+            try:
+                if api == "module":
+                    @dataclass
+                    class MSrc:
+                        a: int
+                        b: int
+
+                    @dataclass
+                    class MDst:
+                        a: int
+                        b: int
+                    msrc = MSrc(1, 2)
+                    if order == "plain-first":
+                        conv_mod.get_converter(MSrc, MDst)(msrc)
+                    conv_mod.get_converter(MSrc, MDst, recipe=recipe)(msrc)
+                    got = conv_mod.get_converter(MSrc, MDst)(msrc)
+                    want = (fresh.a, fresh.b)
+                    got = (got.a, got.b)
+                else:
+                    cr = ConversionRetort()
+                    if order == "plain-first":
+                        cr.get_converter(PSrc, PDst)(src)
+                    if api == "retort.convert":
+                        cr.convert(src, PDst, recipe=recipe)
+                    else:
+                        cr.get_converter(PSrc, PDst, recipe=recipe)(src)
+                    g = cr.get_converter(PSrc, PDst)(src)
+                    got, want = (g.a, g.b), (fresh.a, fresh.b)
+            except Exception as e:  # noqa: BLE001
+                ctx.fail("history:per-call-recipe:raises", f"{api} ({order}) raised {type(e).__name__}: {e}"[:200], case)
+                continue
+            if got != want:
+                ctx.fail("history:per-call-recipe", f"{api} ({order}): a recipe-less get_converter after a call with recipe=[...] "
+                         f"returns {got}, a fresh retort {want}", case)
+
+
 def run(ctx: Ctx):
+    per_call_recipe_probe(ctx)
     pool = get_pool()
     real = Real(pool)
     drv = None
